@@ -5,6 +5,7 @@ import (
 	"fmt"
 	"os"
 	"path/filepath"
+	"regexp"
 	"runtime"
 	"sort"
 	"strings"
@@ -19,6 +20,10 @@ type BPFUnit struct {
 	File  string // base name under <repo>/bpf
 	Entry string
 }
+
+var viaRe = regexp.MustCompile(` via [^\]]*`)
+
+func stripVia(id string) string { return viaRe.ReplaceAllString(id, "") }
 
 // execLLVC runs a property whose obligations come from the eBPF C programs.
 func (r *propRun) execLLVC() int {
@@ -110,7 +115,13 @@ func (r *propRun) execLLVC() int {
 				r.records = append(r.records, rec)
 				continue
 			}
-			if f, ok := known[s.O.ID]; ok {
+			// a known finding is identified by program, kind and case; the "via <block>-><block>"
+			// part of an id names compiler-generated labels, which move with every edit of the function
+			kf, isKnown := known[s.O.ID]
+			if !isKnown {
+				kf, isKnown = known[stripVia(s.O.ID)]
+			}
+			if f, ok := kf, isKnown; ok {
 				rec.Class = "known-finding"
 				r.nKnown++
 				fmt.Printf("KNOWN-FINDING: property=%s %s — %s\n", def.ID, s.O.ID, f.What)
